@@ -845,10 +845,17 @@ func judgeEvo(c evoCase, excludeKnown bool) outcome {
 	// the newer code itself reads them (a drawn value can lack required fields
 	// through a declared struct default that leaves them out; such bytes are
 	// nobody's valid data)
-	if r0, err := callNew(map[string]interface{}{"op": "read", "type": tiNew.Key, "hex": resp["hex"]}); err != nil {
+	// The newer code must also be able to write again what it read from its own
+	// data: Read starts from a constructed object, and a declared struct-literal
+	// default that leaves out a non-optional union field puts a value there that
+	// no version can write (the optional field holding it counts as set).  A
+	// round trip that fails within one version is not a question of evolution.
+	if r0, err := callNew(map[string]interface{}{"op": "read", "type": tiNew.Key, "hex": resp["hex"], "rewrite": true}); err != nil {
 		return harness(err)
-	} else if r0["panic"] != nil || r0["err"] != nil {
+	} else if _, readDone := r0["err"]; !readDone || r0["err"] != nil {
 		return outcome{status: "new_cannot_read_own_data"}
+	} else if r0["panic"] != nil || r0["reerr"] != nil {
+		return outcome{status: "new_cannot_rewrite_own_data"}
 	}
 	v := dr0.Value
 	want := ref.Normalise(ntop, v)
